@@ -207,6 +207,12 @@ class Evaluator:
                     return tuple(_time.gmtime(s.ev(t[2][0])))      # pure stdlib function of a number (not auditok code)
                 except (TypeError, ValueError, OverflowError, OSError) as exc:
                     raise NotEvaluable(exc)
+            if name in ('decode', 'encode') and term_name(t[1]) in ('codecs.decode', 'codecs.encode') and 1 <= len(t[2]) <= 3:
+                import codecs as _codecs
+                try:
+                    return getattr(_codecs, name)(*[s.ev(a) for a in t[2]])      # pure stdlib function of a string / bytes value (not auditok code)
+                except (TypeError, ValueError, LookupError, UnicodeError) as exc:
+                    raise NotEvaluable(exc)
             if name == 'splitext' and len(t[2]) == 1 and term_name(t[1]) in ('os.path.splitext', 'posixpath.splitext', 'ntpath.splitext'):
                 import os as _os
                 try:
@@ -281,16 +287,12 @@ class Evaluator:
         if k == 'not':
             return not s.ev(t[1])
         if k in ('and', 'or'):
-            vals = [s.ev(x) for x in t[1]]
-            if k == 'and':
-                for v in vals:
-                    if not v:
-                        return v
-                return vals[-1]
-            for v in vals:
-                if v:
+            v = None
+            for x in t[1]:                 # left to right, stopping at the deciding operand as Python does
+                v = s.ev(x)
+                if (k == 'and' and not v) or (k == 'or' and v):
                     return v
-            return vals[-1]
+            return v
         return s.leaf(t)
 
 
